@@ -1537,6 +1537,176 @@ Section Job.
       destruct Jrun as (Jn & _). pose proof (NAMES_find wa w3 d x Jn Hfx) as Hfx3. rewrite Hfx3 in Hfg. injection Hfg as <-. exact Hokg.
   Qed.
 
+  (* BuildJob::start_self from the point where the .do file is known *)
+  Lemma ss_run_spec rec e ex t f before sf evs0 df sc s w w' evs rv ab :
+    rec_spec rec -> e_runid e = R ->
+    ~ In f ex -> JINV w (f :: ex) -> PROJ w -> tgt_ok w ex t -> nm w f = t ->
+    find_row (rows (dbs w)) t 1 = Some f ->
+    sf = ldw w f -> own_row w ex f ->
+    In df (do_candidates (updepth w) t) ->
+    (exists fl, fs_get (fs w) (cand_key (updepth w) df) = Some fl /\ sc = script_of fl) ->
+    find_row (rows (dbs w)) (cand_key (updepth w) df) 1 = Some s ->
+    GOODF w (f :: ex) f (fun x => False \/ x = s) ->
+    ss_run rec e t f before sf evs0 df sc w = Ret (w', evs, rv, ab) ->
+    jstep (f :: ex) ex w w' /\ leave_ok w' ex f /\ (rv = 0%Z -> ok w' ex f).
+  Proof.
+    intros Hrec HR Hf Hj Hp Ht Hnm Hfr Hsf [Hum Hov] Hdf (fl & Hfl & Hsc) Hfs Hg H.
+    pose proof Ht as (Tw & Tr & Tk). pose proof Hp as (Pw & P2 & P3).
+    assert (Hfin : In f (f :: ex)) by now left.
+    pose proof Hj as (_ & _ & _ & Hu). destruct (Hu f Hfin) as [Vf _].
+    destruct (P2 t df Tw Hdf) as (Kw & Kr & Kk).
+    destruct (P3 t df fl Tw Hdf Hfl) as [Hplain Hdeps]. rewrite <- Hsc in Hplain, Hdeps.
+    unfold ss_run in H. rewrite HR in H. cbv zeta in H.
+    (* $3 is unlinked *)
+    set (w1 := remove_file w (tmp_of t)) in *.
+    assert (J1 : jstep (f :: ex) (f :: ex) w w1).
+    { apply own_fs_step; auto; [rewrite Hnm; exact Tw|]. intros m _ H2. rewrite Hnm in H2. unfold w1. apply get_remove_other. congruence. }
+    pose proof J1 as (_ & W1 & Jj1 & _).
+    (* the .do row *)
+    change (updepth w1) with (updepth w) in H. change (dbs w1) with (dbs w) in H.
+    unfold from_name in H. rewrite Hfs in H.
+    destruct (find_row_valid _ _ _ Hfs) as [Vs1 Ns]. assert (Vs : valid w1 s) by (pose proof (find_row_bounds _ _ _ _ Hfs); unfold valid; cbn [w1 dbs remove_file]; lia).
+    change (set_db w1 (put_row (dbs w) s (set_static R w1 (load R (dbs w) s)))) with (putw w1 s (set_static R w1 (ldw w1 s))) in H.
+    destruct (dorow_step ex f w1 s Jj1 (PROJ_wsame w w1 W1 Hp) Vs) as (J2 & Hoks & F2 & D2 & N2).
+    { unfold nm. cbn [w1 dbs remove_file]. rewrite Ns. exact Kw. }
+    set (w2 := putw w1 s (set_static R w1 (ldw w1 s))) in *.
+    pose proof (jstep_trans _ _ _ _ _ J1 J2) as J12. pose proof J12 as (_ & W12 & Jj2 & _).
+    assert (Hg2 : GOODF w2 (f :: ex) f (fun _ => False)).
+    { pose proof (GOODF_jstep w w2 (f :: ex) (f :: ex) f _ Hfin Hj J12 Hg) as G.
+      eapply GOODF_weaken; [|exact G]. intros x [[]| ->]. left. exact Hoks. }
+    assert (Hrow2 : get_row (dbs w2) f = get_row (dbs w) f) by (apply (jstep_row (f :: ex) (f :: ex) w w2 f Hfin J12)).
+    assert (Hnm2 : nm w2 f = t) by (rewrite (jstep_nm _ _ w w2 f J12 Vf); exact Hnm).
+    assert (Hfr2 : find_row (rows (dbs w2)) t 1 = Some f) by (destruct J12 as (Jn & _); eapply NAMES_find; eauto).
+    assert (Ht2 : tgt_ok w2 ex t).
+    { split; [exact Tw|]. split; [exact Tr|]. intros x Hx. unfold rkf.
+      rewrite (jstep_nm _ _ w w2 x J12 (proj1 (Hu x (or_intror Hx)))). apply Tk. exact Hx. }
+    (* the script *)
+    match type of H with
+    | context [script_body rec ?EC t sc w2] => set (envc := EC) in H
+    end.
+    destruct (script_body rec envc t sc w2) as [[[[w3 evs2] rcs] out]|] eqn:Esb; [|discriminate].
+    destruct (script_step rec envc ex f t sc w2 w3 evs2 rcs out Hrec eq_refl eq_refl eq_refl eq_refl Hf Jj2
+                          (PROJ_wsame w w2 W12 Hp) Ht2 Hnm2 Hfr2 Hplain Hdeps Hg2 Esb) as (J3 & Hrow3 & Hg3).
+    pose proof J3 as (_ & W3 & Jj3 & _).
+    assert (Vf2 : valid w2 f) by (destruct Jj2 as (_ & _ & _ & Hu2); exact (proj1 (Hu2 f Hfin))).
+    assert (Vf3 : valid w3 f) by (destruct Jj3 as (_ & _ & _ & Hu3); exact (proj1 (Hu3 f Hfin))).
+    assert (Hnm3 : nm w3 f = t) by (rewrite (jstep_nm _ _ w2 w3 f J3 Vf2); exact Hnm2).
+    (* the output *)
+    destruct (emit_output t (s_out sc) out w3) as [[w4 hso] htmp] eqn:Eem.
+    pose proof (emit_output_fs t (s_out sc) out w3) as (D4 & U4 & F4). rewrite Eem in D4, U4, F4. cbn [fst] in D4, U4, F4.
+    assert (J4 : jstep (f :: ex) (f :: ex) w3 w4).
+    { apply own_fs_step; auto; [exact (PROJ_wsame w2 w3 W3 (PROJ_wsame w w2 W12 Hp))|rewrite Hnm3; exact Tw|].
+      intros m H1 H2. rewrite Hnm3 in H1, H2. apply F4; assumption. }
+    pose proof J4 as (_ & W4 & Jj4 & _).
+    assert (Hrow4 : get_row (dbs w4) f = get_row (dbs w) f) by (rewrite D4, Hrow3; exact Hrow2).
+    assert (Hnm4 : nm w4 f = t) by (unfold nm; rewrite D4; exact Hnm3).
+    assert (Hld4 : ldw w4 f = ldw w f) by (unfold load; now rewrite Hrow4).
+    (* the result is recorded *)
+    destruct (record_new_state R t f sf before rcs (if hso then out else None) htmp w4) as [w5 rv5] eqn:Erec.
+    injection H as <- _ <- _.
+    pose proof (PROJ_wsame w3 w4 W4 (PROJ_wsame w2 w3 W3 (PROJ_wsame w w2 W12 Hp))) as Hp4.
+    destruct (record_spec ex f w4 sf before rcs (if hso then out else None) htmp Hf Jj4 Hp4) as (J5 & Hleave & Hok5).
+    { rewrite Hnm4. exact Tw. } { rewrite Hnm4. exact Tr. } { rewrite Hld4. exact Hsf. }
+    { split; rewrite Hld4; assumption. }
+    { rewrite Hnm4, Erec. cbn [snd]. intro E0.
+      assert (Hrcs : rcs = 0%Z).
+      { pose proof (record_status R t f sf before rcs (if hso then out else None) htmp w4) as St. rewrite Erec in St. cbn [snd] in St.
+        rewrite E0 in St. symmetry in St. exact (status_of_zero _ _ _ _ _ St). }
+      pose proof (GOODF_jstep w3 w4 (f :: ex) (f :: ex) f _ Hfin Jj3 J4 (Hg3 Hrcs)) as G4. exact G4. }
+    rewrite Hnm4, Erec in J5, Hleave, Hok5. cbn [fst snd] in J5, Hleave, Hok5.
+    split; [|split; [exact Hleave|exact Hok5]].
+    eapply jstep_trans; [eapply jstep_weaken; [|exact J12]; intros x Hx; now right|].
+    eapply jstep_trans; [exact J3|]. eapply jstep_trans; [eapply jstep_weaken; [|exact J4]; intros x Hx; now right|exact J5].
+  Qed.
+
+  Lemma zap1_flags db f d : In d (deps (zap_deps1 db f)) -> d_target d = f -> d_delete d = true.
+  Proof.
+    cbn [zap_deps1 deps]. intros Hin Ht. apply in_map_iff in Hin as (x & <- & _).
+    destruct (Nat.eqb (d_target x) f) eqn:E; [reflexivity|]. cbn in Ht. apply Nat.eqb_neq in E. contradiction.
+  Qed.
+
+  Lemma set_static_fs w w' r : fs w' = fs w -> set_static R w' r = set_static R w r.
+  Proof. intro H. unfold set_static, update_stamp, read_stamp. now rewrite H. Qed.
+  Lemma set_failed_fs w w' r : fs w' = fs w -> set_failed R w' r = set_failed R w r.
+  Proof. intro H. unfold set_failed, update_stamp, read_stamp. now rewrite H. Qed.
+
+  (* BuildJob::start_self after the override test *)
+  Lemma ss_rest_spec rec e ex t f before w w' evs rv ab :
+    rec_spec rec -> e_runid e = R ->
+    JINV w ex -> PROJ w -> tgt_ok w ex t -> nm w f = t -> valid w f -> ~ In f ex ->
+    find_row (rows (dbs w)) t 1 = Some f -> ~ ok w ex f -> marked (ldw w f) = false ->
+    ss_rest rec e t f before (ldw w f) [] w = Ret (w', evs, rv, ab) ->
+    jstep ex ex w w' /\ (rv = 0%Z -> ok w' ex f).
+  Proof.
+    intros Hrec HR Hj Hp Ht Hnm Vf Hf Hfr Hnok Hum H.
+    pose proof Ht as (Tw & Tr & Tk).
+    assert (Hwt : watched (nm w f) = false) by (rewrite Hnm; exact Tw).
+    assert (Hres : reserved (nm w f) = false) by (rewrite Hnm; exact Tr).
+    assert (Ha : is_alw w f = false) by (apply not_reserved_not_alw; exact Hres).
+    assert (Hld : ldw w f = get_row (dbs w) f) by (apply ld_not_alw; exact Ha).
+    assert (Hov : r_ovr (ldw w f) = false).
+    { destruct Hj as (_ & Hx & _). destruct (Hx f Vf) as (_ & _ & _ & _ & A5). rewrite Hld. exact (proj1 (A5 Hf)). }
+    pose proof (JINV_enter w ex f Hj Vf Hwt Hnok) as Je.
+    assert (Hfin : In f (f :: ex)) by now left.
+    unfold ss_rest in H. rewrite HR in H. cbv zeta in H. rewrite Hov in H. cbn [orb] in H.
+    destruct (exists_b w t && negb (r_gen (ldw w f))) eqn:Est.
+    - (* an existing source *)
+      injection H as <- _ <- _.
+      destruct (static_exit ex f w Hf Je Hres) as (J & Hl & Hok).
+      change (set_db w (put_row (dbs w) f (set_static R w (ldw w f)))) with (putw w f (set_static R w (ldw w f))).
+      split; [eapply job_wrap; eauto|intros _; exact Hok].
+    - (* the old declarations are flagged, the .do file is looked for *)
+      destruct (zap1_JINV w (f :: ex) f Je Hfin) as (Ez & Jz & Mz).
+      set (wz := set_db w (zap_deps1 (dbs w) f)) in *.
+      assert (Jwz : jstep (f :: ex) ex w wz).
+      { apply jstep_db; [exact Hf| |exact Ez|exact Jz|exact Mz|].
+        - intros x Hx. destruct Je as (_ & _ & _ & Hu). exact (proj1 (Hu x (or_intror Hx))).
+        - apply (deps_other_zap1 (deps (dbs w)) f). }
+      assert (Hgz : GOODF wz (f :: ex) f (fun _ => False)).
+      { intros d Hin Htg. left. exact (zap1_flags (dbs w) f d Hin Htg). }
+      assert (Hnmz : nm wz f = t) by exact Hnm.
+      destruct (find_do_file w (zap_deps1 (dbs w) f) f (do_candidates (updepth w) t)) as [d2 found] eqn:Efd.
+      destruct (find_do_spec ex f t w Hf Tw Hp (do_candidates (updepth w) t) (fun c Hc => Hc) wz (fun _ => False)
+                             eq_refl eq_refl Jz Hnmz Hgz d2 found Efd) as (J2 & E2 & Hfound).
+      change (set_db wz d2) with (set_db w d2) in *.
+      set (w2 := set_db w d2) in *.
+      pose proof (jstep_trans _ _ _ _ _ Jwz J2) as J02. pose proof J02 as (_ & W02 & Jj2 & _).
+      assert (E02 : extends w w2) by (exact (extends_trans w wz w2 Ez E2)).
+      assert (Hrow2 : get_row (dbs w2) f = get_row (dbs w) f) by (destruct E02 as (_ & _ & _ & Hr); apply Hr; exact Vf).
+      assert (Hld2 : ldw w2 f = ldw w f) by (unfold load; now rewrite Hrow2).
+      assert (Hnm2 : nm w2 f = t) by (rewrite (extends_nm w w2 f E02 Vf); exact Hnm).
+      assert (Fs2 : fs w2 = fs w) by (destruct E02 as (X & _); exact X).
+      destruct found as [[df sc]|].
+      + (* a rule *)
+        destruct Hfound as (Hdf & Hfl & (s & Hfs & Hg2)).
+        pose proof E02 as (_ & Up & Nn & _).
+        assert (A1 : tgt_ok w2 ex t).
+        { split; [exact Tw|]. split; [exact Tr|]. intros x Hx. unfold rkf.
+          destruct Hj as (_ & _ & _ & Hu). rewrite (extends_nm w w2 x E02 (proj1 (Hu x Hx))). apply Tk. exact Hx. }
+        assert (A2 : find_row (rows (dbs w2)) t 1 = Some f) by (eapply NAMES_find; eauto).
+        assert (A3 : own_row w2 ex f) by (split; rewrite Hld2; assumption).
+        assert (A4 : In df (do_candidates (updepth w2) t)) by (rewrite Up; exact Hdf).
+        assert (A5 : exists fl, fs_get (fs w2) (cand_key (updepth w2) df) = Some fl /\ sc = script_of fl) by (rewrite Up, Fs2; exact Hfl).
+        assert (A6 : find_row (rows (dbs w2)) (cand_key (updepth w2) df) 1 = Some s) by (rewrite Up; exact Hfs).
+        assert (A7 : ldw w f = ldw w2 f) by (symmetry; exact Hld2).
+        pose proof (ss_run_spec rec e ex t f before (ldw w f) [] df sc s w2 w' evs rv ab Hrec HR Hf Jj2
+                                (PROJ_wsame w w2 W02 Hp) A1 Hnm2 A2 A7 A3 A4 A5 A6 Hg2 H) as Hrun.
+        destruct Hrun as (J3 & Hl & Hok).
+        split; [|exact Hok]. eapply job_wrap; eauto. eapply jstep_trans; eauto.
+      + (* no rule *)
+        destruct (exists_b w t) eqn:Eex.
+        * injection H as <- _ <- _.
+          destruct (static_exit ex f w2 Hf Jj2) as (J3 & Hl & Hok); [rewrite Hnm2; exact Tr|].
+          rewrite Hld2, (set_static_fs w w2 _ Fs2) in J3, Hl, Hok.
+          change (set_db w (put_row d2 f (set_static R w (ldw w f)))) with (putw w2 f (set_static R w (ldw w f))).
+          split; [|intros _; exact Hok]. eapply job_wrap; eauto. eapply jstep_trans; eauto.
+        * injection H as <- _ <- _.
+          destruct (failed_exit ex f w2 Hf Jj2) as (J3 & Hl); [rewrite Hnm2; exact Tr|rewrite Hld2; exact Hov|].
+          rewrite Hld2, (set_failed_fs w w2 _ Fs2) in J3, Hl.
+          change (set_db w (put_row d2 f (set_failed R w (ldw w f)))) with (putw w2 f (set_failed R w (ldw w f))).
+          split; [|intro X; discriminate X]. eapply job_wrap; eauto. eapply jstep_trans; eauto.
+  Qed.
+
   (* ---------------------------------------------------------------- a check that does not answer "clean" *)
   Lemma walk_not_clean_inv (I : world -> Prop) (Q : dep -> row -> Prop) isd f r :
     (forall w1 c1 d rs v w' c' evs, Q d rs -> d_mode d = DModified -> I w1 ->
